@@ -63,7 +63,7 @@ impl C03Search {
         if entry.bytes() && base < 3 {
             let n = rng.urange(0, 64);
             let b: Vec<u8> = (0..n).map(|_| if rng.chance(1, 2) { *rng.pick(b"{}[]:,\"\\u0123456789-+.eEtrufalsn \n") } else { rng.below(256) as u8 }).collect();
-            return (StreamSc { entry, target, opts, src: Src::Bytes(b), faults: vec!["random-bytes".into()], context: 0, hint: 0, reenter_at: 0 }, K_BYTESET, Some(0));
+            return (StreamSc { entry, target, opts, src: Src::Bytes(b), faults: vec!["random-bytes".into()], context: 0, hint: 0, reenter_at: 0, panic_at: 0 }, K_BYTESET, Some(0));
         }
         let doc: Vec<char> = match base {
             0..=2 => self.docs.chars[rng.usize_below(self.docs.chars.len())].1.clone(),
@@ -96,7 +96,7 @@ impl C03Search {
             faults.push(apply(&mut evs, kind, k, c, aux));
             if first.map(|f| k < f.1).unwrap_or(true) { first = Some((kind, k)); }
         }
-        let mut sc = StreamSc { entry, target, opts, src: Src::Events(evs), faults, context: if entry == Entry::ParseIn { rng.below(4) as u8 } else { 0 }, hint: if entry.iterator() { match rng.below(8) { 0 => 1, 1 => 2, _ => 0 } } else { 0 }, reenter_at: if entry.iterator() && rng.chance(1, 10) { 1 + rng.below(12) as u32 } else { 0 } };
+        let mut sc = StreamSc { entry, target, opts, src: Src::Events(evs), faults, context: if entry == Entry::ParseIn { rng.below(4) as u8 } else { 0 }, hint: if entry.iterator() { match rng.below(8) { 0 => 1, 1 => 2, _ => 0 } } else { 0 }, reenter_at: if entry.iterator() && rng.chance(1, 10) { 1 + rng.below(12) as u32 } else { 0 }, panic_at: if entry.iterator() && rng.chance(1, 12) { 1 + rng.below(16) as u32 } else { 0 } };
         if entry == Entry::FromStr { sc.target = Target::Value; }
         sc.normalise();
         if entry.bytes() && rng.chance(1, 2) {
@@ -148,7 +148,7 @@ impl C03CorpusBytes {
         let h = { let mut x = run.wrapping_mul(0x9e37_79b9_7f4a_7c15); crate::kernel::rng::splitmix64(&mut x) };
         let entry = if h & 1 == 0 { Entry::SliceWith } else { Entry::Slice };
         let opts = (h & 2 != 0, h & 4 != 0);
-        (StreamSc { entry, target: Target::Value, opts, src: Src::Bytes(b), faults, context: 0, hint: 0, reenter_at: 0 }, kind, at)
+        (StreamSc { entry, target: Target::Value, opts, src: Src::Bytes(b), faults, context: 0, hint: 0, reenter_at: 0, panic_at: 0 }, kind, at)
     }
 }
 
